@@ -293,8 +293,12 @@ pub struct Peer {
     pub app: App,
     pub is_setup: bool,
     pub client_id: Option<u64>,
+    pub old_client_ids: Vec<u64>,
     pub last_order: Vec<String>,
     pub last_registry: Vec<u32>,
+    pub local_asset_ops: Vec<(u8, Uuid)>,
+    pub own_port: u16,
+    pub web_port: u16,
     pub prev_clients: Vec<u32>,
     pub regs: Vec<u32>,
     pub panicked: bool,
@@ -325,6 +329,150 @@ fn free_tcp(ip: IpAddr) -> u16 {
 #[derive(Resource, Default)]
 pub struct FinCount(pub usize);
 
+/// asset events of the frame, recorded in Last after Assets::asset_events: (kind, uuid)
+#[derive(Resource, Default)]
+pub struct AssetLog(pub Vec<(u8, Uuid)>);
+
+fn log_asset_events(
+    mut log: ResMut<AssetLog>,
+    mut m: EventReader<AssetEvent<StandardMaterial>>,
+    mut me: EventReader<AssetEvent<Mesh>>,
+    mut im: EventReader<AssetEvent<Image>>,
+    mut au: EventReader<AssetEvent<AudioSource>>,
+) {
+    fn id_of<A: Asset>(e: &AssetEvent<A>) -> Option<Uuid> {
+        match e {
+            AssetEvent::Added { id } | AssetEvent::Modified { id } => match id {
+                AssetId::Uuid { uuid } => Some(*uuid),
+                _ => None,
+            },
+            _ => None,
+        }
+    }
+    for e in m.read() {
+        if let Some(u) = id_of(e) {
+            log.0.push((0, u));
+        }
+    }
+    for e in me.read() {
+        if let Some(u) = id_of(e) {
+            log.0.push((1, u));
+        }
+    }
+    for e in im.read() {
+        if let Some(u) = id_of(e) {
+            log.0.push((2, u));
+        }
+    }
+    for e in au.read() {
+        if let Some(u) = id_of(e) {
+            log.0.push((3, u));
+        }
+    }
+}
+
+/// ServerEvents of the frame, recorded in PreUpdate after renet's receive set: (connected?, client id)
+#[derive(Resource, Default)]
+pub struct ConnLog(pub Vec<(bool, u64)>, pub Vec<u64>);
+
+fn log_server_events(mut log: ResMut<ConnLog>, mut ev: EventReader<bevy_renet::renet::ServerEvent>, server: Option<Res<RenetServer>>) {
+    // clients_id() as the Update schedule of this frame will see it
+    log.1 = server.map(|s| s.clients_id().iter().map(|c| c.raw()).collect()).unwrap_or_default();
+    for e in ev.read() {
+        match e {
+            bevy_renet::renet::ServerEvent::ClientConnected { client_id } => log.0.push((true, client_id.raw())),
+            bevy_renet::renet::ServerEvent::ClientDisconnected { client_id, .. } => log.0.push((false, client_id.raw())),
+        }
+    }
+}
+
+/// commands the application systems issue at their next run: (system index, entity to despawn)
+#[derive(Resource, Default)]
+pub struct AppCmds(pub Vec<(usize, Entity)>);
+
+fn run_app_cmds(k: usize, cmds: &mut AppCmds, commands: &mut Commands) {
+    let mine: Vec<Entity> = cmds.0.iter().filter(|(i, _)| *i == k).map(|(_, e)| *e).collect();
+    cmds.0.retain(|(i, _)| *i != k);
+    for e in mine {
+        if let Some(mut ec) = commands.get_entity(e) {
+            ec.despawn();
+        }
+    }
+}
+pub fn app_system_0(mut cmds: ResMut<AppCmds>, mut commands: Commands) {
+    run_app_cmds(0, &mut cmds, &mut commands);
+}
+pub fn app_system_1(mut cmds: ResMut<AppCmds>, mut commands: Commands) {
+    run_app_cmds(1, &mut cmds, &mut commands);
+}
+pub fn app_system_2(mut cmds: ResMut<AppCmds>, mut commands: Commands) {
+    run_app_cmds(2, &mut cmds, &mut commands);
+}
+
+const ASSET_BASE: u128 = 0xA55E7_0000_0000_0000;
+fn asset_uuid(a: u64) -> Uuid {
+    Uuid::from_u128(ASSET_BASE + a as u128)
+}
+fn asset_handle(u: &Uuid) -> Option<u64> {
+    // asset id 0 = the engine's default StandardMaterial / Image handle (a uuid asset present in every App)
+    if *u == AssetId::<StandardMaterial>::DEFAULT_UUID {
+        return Some(0);
+    }
+    let x = u.as_u128();
+    if x >= ASSET_BASE && x < ASSET_BASE + (1u128 << 40) {
+        Some((x - ASSET_BASE) as u64)
+    } else {
+        None
+    }
+}
+fn mesh_of(v: u64) -> Mesh {
+    use bevy::render::{mesh::PrimitiveTopology, render_asset::RenderAssetUsages};
+    let mut m = Mesh::new(PrimitiveTopology::TriangleList, RenderAssetUsages::MAIN_WORLD | RenderAssetUsages::RENDER_WORLD);
+    m.insert_attribute(Mesh::ATTRIBUTE_POSITION, vec![[v as f32, 0.0, 0.0]]);
+    m
+}
+fn mesh_digest(m: &Mesh) -> String {
+    match m.attribute(Mesh::ATTRIBUTE_POSITION) {
+        Some(bevy::render::mesh::VertexAttributeValues::Float32x3(p)) if !p.is_empty() => format!("{}", p[0][0] as u64),
+        _ => "empty".to_string(),
+    }
+}
+fn image_of(v: u64) -> Image {
+    use bevy::render::render_asset::RenderAssetUsages;
+    use bevy::render::render_resource::{Extent3d, TextureDimension, TextureFormat};
+    Image::new(
+        Extent3d { width: 1, height: 1, depth_or_array_layers: 1 },
+        TextureDimension::D2,
+        vec![(v & 255) as u8, ((v >> 8) & 255) as u8, ((v >> 16) & 255) as u8, 255],
+        TextureFormat::Rgba8UnormSrgb,
+        RenderAssetUsages::MAIN_WORLD | RenderAssetUsages::RENDER_WORLD,
+    )
+}
+fn image_digest(i: &Image) -> String {
+    if i.data.len() >= 3 {
+        format!("{}", i.data[0] as u64 + 256 * i.data[1] as u64 + 65536 * i.data[2] as u64)
+    } else {
+        "empty".to_string()
+    }
+}
+fn audio_of(v: u64) -> AudioSource {
+    AudioSource { bytes: (v as u32).to_le_bytes().to_vec().into() }
+}
+fn audio_digest(a: &AudioSource) -> String {
+    let b: &[u8] = a.as_ref();
+    if b.len() == 4 {
+        format!("{}", u32::from_le_bytes([b[0], b[1], b[2], b[3]]))
+    } else {
+        "odd".to_string()
+    }
+}
+fn material_of(v: u64) -> StandardMaterial {
+    StandardMaterial { perceptual_roughness: v as f32 / 1000.0, ..Default::default() }
+}
+fn material_digest(m: &StandardMaterial) -> String {
+    format!("{}", (m.perceptual_roughness * 1000.0).round() as u64)
+}
+
 fn count_finished(mut r: EventReader<bevy_sync::InitialSyncFinished>, mut c: ResMut<FinCount>) {
     c.0 += r.read().count();
 }
@@ -340,9 +488,19 @@ fn new_app(host: bool, mt: bool) -> App {
     app.init_asset::<AudioSource>();
     app.init_asset::<SkinnedMeshInverseBindposes>();
     app.add_plugins(PbrPlugin::default());
+    if std::env::var("BSH_LOG").is_ok() {
+        app.add_plugins(bevy::log::LogPlugin { filter: "error,bevy_sync=debug".to_string(), level: bevy::log::Level::DEBUG, ..default() });
+    }
     app.add_plugins(SyncPlugin);
     app.init_resource::<FinCount>();
     app.add_systems(Last, count_finished);
+    app.init_resource::<AssetLog>();
+    app.add_systems(Last, log_asset_events.after(bevy::asset::AssetEvents));
+    app.init_resource::<ConnLog>();
+    app.init_resource::<Events<bevy_renet::renet::ServerEvent>>();
+    app.add_systems(PreUpdate, log_server_events.after(bevy_renet::RenetReceive));
+    app.init_resource::<AppCmds>();
+    app.add_systems(Update, (app_system_0, app_system_1, app_system_2));
     if !mt {
         app.edit_schedule(Update, |s| {
             s.set_executor_kind(ExecutorKind::SingleThreaded);
@@ -368,8 +526,12 @@ impl Session {
                 app: new_app(i == 0, mt),
                 is_setup: false,
                 client_id: None,
+                old_client_ids: vec![],
                 last_order: vec![],
                 last_registry: vec![],
+                local_asset_ops: vec![],
+                own_port: 0,
+                web_port: 0,
                 prev_clients: vec![],
                 regs: vec![],
                 panicked: false,
@@ -391,7 +553,7 @@ impl Session {
     }
 
     fn peer_of_client(&self, id: u64) -> Option<usize> {
-        self.peers.iter().position(|p| p.client_id == Some(id))
+        self.peers.iter().position(|p| p.client_id == Some(id) || p.old_client_ids.contains(&id))
     }
 
     fn h(&self, u: &Uuid) -> String {
@@ -399,6 +561,20 @@ impl Session {
             Some(h) => format!("{}", h),
             None => format!("u{}", &u.simple().to_string()[..8]),
         }
+    }
+
+    fn ah(&self, u: &Uuid) -> String {
+        asset_handle(u).map(|a| a.to_string()).unwrap_or_else(|| format!("u{}", &u.simple().to_string()[..8]))
+    }
+
+    /// the peer whose HTTP endpoint a URL points to
+    fn owner_of_url(&self, url: &str) -> String {
+        for (i, pr) in self.peers.iter().enumerate() {
+            if pr.web_port != 0 && url.contains(&format!(":{}/", pr.web_port)) {
+                return i.to_string();
+            }
+        }
+        "?".to_string()
     }
 
     fn canon(&self, receiver: usize, m: &VMessage) -> String {
@@ -411,11 +587,11 @@ impl Session {
                 format!("comp {} {} {}", self.h(id), t, self.decode_value(receiver, name, data))
             }
             VMessage::StandardMaterialUpdated { id, material } => {
-                format!("mat {} {}", self.h(id), self.decode_material(receiver, material))
+                format!("mat {} {}", self.ah(id), self.decode_material(receiver, material))
             }
-            VMessage::MeshUpdated { id, url } => format!("asset mesh {} {}", self.h(id), url),
-            VMessage::ImageUpdated { id, url } => format!("asset image {} {}", self.h(id), url),
-            VMessage::AudioUpdated { id, url } => format!("asset audio {} {}", self.h(id), url),
+            VMessage::MeshUpdated { id, url } => format!("asset mesh {} {}", self.ah(id), self.owner_of_url(url)),
+            VMessage::ImageUpdated { id, url } => format!("asset image {} {}", self.ah(id), self.owner_of_url(url)),
+            VMessage::AudioUpdated { id, url } => format!("asset audio {} {}", self.ah(id), self.owner_of_url(url)),
             VMessage::PromoteToHost => "promote".to_string(),
             VMessage::NewHost { port, .. } => format!("newhost {}", port),
             VMessage::RequestInitialSync => "reqinit".to_string(),
@@ -524,6 +700,7 @@ impl Session {
         match w[0] {
             "setup" => {
                 let web = free_tcp(self.ip);
+                self.peers[p].web_port = web;
                 let params = SyncConnectionParameters::Socket { ip: self.ip, port: self.port, web_port: web, max_transfer: 100_000_000 };
                 if p == 0 {
                     self.peers[p].app.add_plugins(ServerPlugin { parameters: params });
@@ -533,6 +710,12 @@ impl Session {
                     self.peers[p].app.add_plugins(ClientPlugin { parameters: params });
                     let id = self.peers[p].app.world().resource::<NetcodeClientTransport>().client_id().raw();
                     self.peers[p].client_id = Some(id);
+                    // as the repository's promotion test does: every peer that may become host gets its own port
+                    let own = free_udp(self.ip);
+                    self.peers[p].own_port = own;
+                    if let SyncConnectionParameters::Socket { ref mut port, .. } = *self.peers[p].app.world_mut().resource_mut::<SyncConnectionParameters>() {
+                        *port = own;
+                    }
                 }
                 self.peers[p].is_setup = true;
             }
@@ -595,6 +778,62 @@ impl Session {
                     }
                 }
             }
+            "addasset" => {
+                // addasset kind(0 material,1 mesh,2 image,3 audio) a v
+                let k: u8 = w[1].parse().unwrap();
+                let a: u64 = w[2].parse().unwrap();
+                let v: u64 = w[3].parse().unwrap();
+                let u = asset_uuid(a);
+                let world = self.peers[p].app.world_mut();
+                match k {
+                    0 => world.resource_mut::<Assets<StandardMaterial>>().insert(u, material_of(v)),
+                    1 => world.resource_mut::<Assets<Mesh>>().insert(u, mesh_of(v)),
+                    2 => world.resource_mut::<Assets<Image>>().insert(u, image_of(v)),
+                    _ => world.resource_mut::<Assets<AudioSource>>().insert(u, audio_of(v)),
+                }
+                self.peers[p].local_asset_ops.push((k, u));
+            }
+            "addasset_index" => {
+                // an asset under a runtime index id: must never be replicated
+                let k: u8 = w[1].parse().unwrap();
+                let v: u64 = w[2].parse().unwrap();
+                let world = self.peers[p].app.world_mut();
+                match k {
+                    0 => std::mem::forget(world.resource_mut::<Assets<StandardMaterial>>().add(material_of(v))),
+                    1 => std::mem::forget(world.resource_mut::<Assets<Mesh>>().add(mesh_of(v))),
+                    2 => std::mem::forget(world.resource_mut::<Assets<Image>>().add(image_of(v))),
+                    _ => std::mem::forget(world.resource_mut::<Assets<AudioSource>>().add(audio_of(v))),
+                }
+            }
+            "promote" => {
+                let c: usize = w[1].parse().unwrap();
+                if let Some(id) = self.peers[c].client_id {
+                    self.peers[p].app.world_mut().send_event(bevy_sync::PromoteToHostEvent { id: bevy_renet::renet::ClientId::from_raw(id) });
+                }
+            }
+            "appcmd" => {
+                // appcmd n despawn h
+                let n: usize = w[1].parse().unwrap();
+                let h: u64 = w[3].parse().unwrap();
+                if let Some(e) = self.resolve(p, h) {
+                    self.peers[p].app.world_mut().resource_mut::<AppCmds>().0.push((n, e));
+                }
+            }
+            "skin" => {
+                // skin h j1,j2,.. p1,p2,..
+                let h: u64 = w[1].parse().unwrap();
+                let joints: Vec<u64> = if w[2] == "-" { vec![] } else { w[2].split(',').map(|x| x.parse().unwrap()).collect() };
+                let poses: Vec<u64> = if w[3] == "-" { vec![] } else { w[3].split(',').map(|x| x.parse().unwrap()).collect() };
+                let js: Vec<Entity> = joints.iter().filter_map(|j| self.resolve(p, *j)).collect();
+                if let Some(e) = self.resolve(p, h) {
+                    let world = self.peers[p].app.world_mut();
+                    let mats: Vec<Mat4> = poses.iter().map(|x| Mat4::from_cols_array(&[*x as f32, 0., 0., 0., 0., 1., 0., 0., 0., 0., 1., 0., 0., 0., 0., 1.])).collect();
+                    let handle = world.resource_mut::<Assets<SkinnedMeshInverseBindposes>>().add(SkinnedMeshInverseBindposes::from(mats));
+                    if let Some(mut em) = world.get_entity_mut(e) {
+                        em.insert(SkinnedMesh { inverse_bindposes: handle, joints: js });
+                    }
+                }
+            }
             "removetransports" => {
                 let world = self.peers[p].app.world_mut();
                 world.remove_resource::<NetcodeServerTransport>();
@@ -610,6 +849,8 @@ impl Session {
             return;
         }
         self.tap.lock().unwrap().clear();
+        self.peers[p].app.world_mut().resource_mut::<AssetLog>().0.clear();
+        self.peers[p].app.world_mut().resource_mut::<ConnLog>().0.clear();
         let fin_before = self.finished_count(p);
         let r = {
             let app = &mut self.peers[p].app;
@@ -634,15 +875,23 @@ impl Session {
         }
         // learn uuids of script entities
         self.learn_uuids();
+        // a promotion hand-over creates new transports with new client ids
+        {
+            let id = self.peers[p].app.world().get_resource::<NetcodeClientTransport>().map(|t| t.client_id().raw());
+            if id.is_some() && id != self.peers[p].client_id {
+                if let Some(old) = self.peers[p].client_id {
+                    self.peers[p].old_client_ids.push(old);
+                }
+                self.peers[p].client_id = id;
+            }
+        }
         // connection oracle
         {
             let world = self.peers[p].app.world();
             let mut clients: Vec<u32> = vec![];
-            if let Some(server) = world.get_resource::<RenetServer>() {
-                for c in server.clients_id() {
-                    if let Some(q) = self.peer_of_client(c.raw()) {
-                        clients.push(q as u32);
-                    }
+            for c in world.resource::<ConnLog>().1.iter() {
+                if let Some(q) = self.peer_of_client(*c) {
+                    clients.push(q as u32);
                 }
             }
             clients.sort();
@@ -655,8 +904,47 @@ impl Session {
             let has_srv = world.contains_resource::<NetcodeServerTransport>();
             let has_cli = world.contains_resource::<NetcodeClientTransport>();
             let list = clients.iter().map(|c| c.to_string()).collect::<Vec<_>>().join(",");
-            writeln!(self.out, "NET {} clients={} status={} srvt={} clit={}", p, if list.is_empty() { "-".into() } else { list }, status, has_srv as u8, has_cli as u8).unwrap();
+            let evs: Vec<String> = world
+                .resource::<ConnLog>()
+                .0
+                .iter()
+                .map(|(c, id)| format!("{}{}", if *c { '+' } else { '-' }, self.peer_of_client(*id).map(|q| q.to_string()).unwrap_or("?".into())))
+                .collect();
+            writeln!(
+                self.out,
+                "NET {} clients={} status={} srvt={} clit={} events={}",
+                p,
+                if list.is_empty() { "-".into() } else { list },
+                status,
+                has_srv as u8,
+                has_cli as u8,
+                if evs.is_empty() { "-".to_string() } else { evs.join(",") }
+            )
+            .unwrap();
             self.peers[p].prev_clients = clients;
+        }
+        // downloads applied by the process_* systems in this frame = asset events of the URL classes
+        // that were not caused by a local insertion
+        {
+            let log: Vec<(u8, Uuid)> = self.peers[p].app.world().resource::<AssetLog>().0.clone();
+            for (k, u) in log {
+                if let Some(pos) = self.peers[p].local_asset_ops.iter().position(|x| *x == (k, u)) {
+                    self.peers[p].local_asset_ops.remove(pos);
+                    continue;
+                }
+                if k == 0 {
+                    continue;
+                }
+                let world = self.peers[p].app.world();
+                let content = match k {
+                    1 => world.resource::<Assets<Mesh>>().get(u).map(mesh_digest),
+                    2 => world.resource::<Assets<Image>>().get(u).map(image_digest),
+                    _ => world.resource::<Assets<AudioSource>>().get(u).map(audio_digest),
+                }
+                .unwrap_or("gone".into());
+                let a = asset_handle(&u).map(|a| a.to_string()).unwrap_or("?".into());
+                writeln!(self.out, "DL {} {} {} {}", p, k, a, content).unwrap();
+            }
         }
         let msgs: Vec<_> = self.tap.lock().unwrap().drain(..).collect();
         self.received_in_round += msgs.len();
@@ -804,6 +1092,34 @@ impl Session {
         }
         elines.sort();
         lines.extend(elines);
+        let mut alines = vec![];
+        for (id, m) in world.resource::<Assets<StandardMaterial>>().iter() {
+            if let AssetId::Uuid { uuid } = id {
+                alines.push(format!("AST {} 0 {} {}", p, self.ah(&uuid), material_digest(m)));
+            }
+        }
+        for (id, m) in world.resource::<Assets<Mesh>>().iter() {
+            if let AssetId::Uuid { uuid } = id {
+                alines.push(format!("AST {} 1 {} {}", p, self.ah(&uuid), mesh_digest(m)));
+            }
+        }
+        for (id, m) in world.resource::<Assets<Image>>().iter() {
+            if let AssetId::Uuid { uuid } = id {
+                if asset_handle(&uuid).is_some() {
+                    alines.push(format!("AST {} 2 {} {}", p, self.ah(&uuid), image_digest(m)));
+                }
+            }
+        }
+        for (id, m) in world.resource::<Assets<AudioSource>>().iter() {
+            if let AssetId::Uuid { uuid } = id {
+                alines.push(format!("AST {} 3 {} {}", p, self.ah(&uuid), audio_digest(m)));
+            }
+        }
+        alines.sort();
+        lines.extend(alines);
+        if let Some(t) = verif::transfer_stats(world) {
+            lines.push(format!("XFER {} active={} queued={} toapply={}", p, t.downloads_active, t.downloads_queued, t.meshes_to_apply + t.images_to_apply + t.audios_to_apply));
+        }
         for l in lines {
             writeln!(self.out, "{}", l).unwrap();
         }
@@ -851,6 +1167,14 @@ pub fn run_scenario(text: &str) -> String {
     let mt = head.iter().any(|s| *s == "mt");
     let mut s = Session::new(n, v6, mt);
     writeln!(s.out, "PEERS {} {}", n, if mt { "mt" } else { "st" }).unwrap();
+    // warm-up: let the engine's start-up asset events (default material / image) expire before any
+    // bevy_sync reader can see them; event buffers rotate with the fixed time step (64 Hz)
+    for _ in 0..3 {
+        for p in 0..n {
+            s.frame(p);
+        }
+        std::thread::sleep(std::time::Duration::from_millis(20));
+    }
     for l in lines {
         let w: Vec<&str> = l.split_whitespace().collect();
         match w[0] {
